@@ -161,6 +161,74 @@ def check_state(rep, kind, f, ctx):
     return bad
 
 
+def info_accessor_grid(rep, rng, n_random):
+    """Info accessors are the exact conversions of the raw values: constructed raw infos over a
+    grid of edge values (epoch 0, negative, fractional, None; every type; permission sets)."""
+    import datetime as _dt
+    from fs.info import Info
+    from fs.enums import ResourceType
+    from fs.permissions import Permissions
+
+    times = [None, 0, 0.0, 1, -1, 1.5, 86399, 86400, 951782400, 1e9, 1582934400.25, 2 ** 31, 4102444800]
+    perm_names = ["u_r", "u_w", "u_x", "g_r", "g_w", "g_x", "o_r", "o_w", "o_x", "setuid", "setguid", "sticky"]
+    cases = []
+    for t in times:
+        for key in ("modified", "created", "accessed", "metadata_changed"):
+            cases.append({"basic": {"name": "n", "is_dir": False}, "details": {key: t, "type": 2, "size": 0}})
+    for ty in range(0, 8):
+        for size in (0, 1, 2 ** 40):
+            cases.append({"basic": {"name": "x", "is_dir": ty == 1}, "details": {"type": ty, "size": size}})
+    for _ in range(n_random):
+        names = [n for n in perm_names if rng.random() < 0.5]
+        cases.append({"basic": {"name": "p", "is_dir": False}, "access": {"permissions": names, "uid": rng.randrange(70000), "gid": 0,
+                                                                           "user": "u", "group": None}})
+    for mode in list(range(0, 0o10000, 73)) + [0, 0o7777, 0o4000, 0o2000, 0o1000, 0o777]:
+        cases.append({"basic": {"name": "m", "is_dir": False}, "access": {"permissions": Permissions(mode=mode).dump()}, "_mode": mode})
+    for raw in cases:
+        mode = raw.pop("_mode", None)
+        info = Info(raw)
+        rep.evaluations += 1
+        rep.nontrivial("info-grid", repr(sorted((k, repr(sorted(v.items(), key=repr))) for k, v in raw.items())))
+        bad = None
+        try:
+            d = raw.get("details", {})
+            for key in ("modified", "created", "accessed", "metadata_changed"):
+                if key in d:
+                    v = d[key]
+                    want = None if v is None else _dt.datetime.fromtimestamp(v, _dt.timezone.utc)
+                    got = getattr(info, key)
+                    if (got is None) != (want is None) or (got is not None and abs((got - want).total_seconds()) > 1e-6):
+                        bad = ("info_time_conversion", "%s raw=%r accessor=%r expected=%r" % (key, v, got, want))
+            if "type" in d and info.type != ResourceType(d["type"]):
+                bad = ("info_type_conversion", repr(d))
+            if "size" in d and info.size != d["size"]:
+                bad = ("info_size_conversion", repr(d))
+            a = raw.get("access")
+            if a is not None:
+                perm = info.permissions
+                if sorted(perm.dump()) != sorted(a["permissions"]):
+                    bad = ("info_permissions_conversion", "%r -> %r" % (a["permissions"], perm.dump()))
+                want_mode = 0
+                bits = {"u_r": 0o400, "u_w": 0o200, "u_x": 0o100, "g_r": 0o40, "g_w": 0o20, "g_x": 0o10, "o_r": 4, "o_w": 2, "o_x": 1,
+                        "setuid": 0o4000, "setguid": 0o2000, "sticky": 0o1000}
+                for n_ in a["permissions"]:
+                    want_mode |= bits[n_]
+                if perm.mode != want_mode or (mode is not None and perm.mode != mode):
+                    bad = ("permissions_mode_roundtrip", "%r mode=%o expected=%o" % (a["permissions"], perm.mode, want_mode))
+                for k in ("uid", "gid", "user", "group"):
+                    if k in a and getattr(info, k) != a[k]:
+                        bad = ("info_access_conversion", k)
+            if info.name != raw["basic"]["name"] or info.is_dir != raw["basic"]["is_dir"] or info.is_file == info.is_dir:
+                bad = ("info_basic_conversion", repr(raw["basic"]))
+        except Exception as e:  # noqa
+            bad = ("info_accessor_raises", "%r on %r" % (e, raw))
+        if bad:
+            rep.violation({"raw": raw, "law": bad[0], "detail": bad[1]}, "Info(%r): %s — %s" % (raw, bad[0], bad[1]),
+                          found_input=True, signature="C10/info/%s" % bad[0])
+            break
+    rep.extra["info_grid_cases"] = len(cases)
+
+
 def run(rep, tier, seed, deep=False):
     rng = vlib.rng_for(seed, "c10")
     quick = tier == "quick"
@@ -185,6 +253,12 @@ def run(rep, tier, seed, deep=False):
                             continue
                         H.apply_op(b.fs, op)
                         ops.append(H.op_json(op))
+                        if op[0] in ("writebytes", "makedir", "create") and rng.random() < 0.3:
+                            # explicit timestamps, including the epoch itself
+                            try:
+                                b.fs.setinfo(op[1], {"details": {"modified": rng.choice([0, 1, 86400, 1e9]), "accessed": rng.choice([0, 5])}})
+                            except Exception:
+                                pass
                         snap = H.snapshot(b.fs)
                         if snap is None:
                             break
@@ -201,6 +275,7 @@ def run(rep, tier, seed, deep=False):
                                 pass
                 finally:
                     b.close()
+        info_accessor_grid(rep, rng, 200 if quick else 5000)
         rep.sample({"backend": "mem", "laws": ["listdir_eq_scandir_names", "page_is_slice", "scandir_info_eq_getinfo", "getsize_eq_len_readbytes_eq_details_size"]})
     finally:
         H.cleanup_scratch()
